@@ -27,7 +27,8 @@ claim("C20",
       "Coq theorems over every schedule, every number of concurrent requests and every tool environment for the instruction-level interleaving semantics of the "
       "lazy-probe protocol: no data race on a cache field (lockset invariant), every access under the mutex, each tool probed at most once, formatter run exactly once per request iff the tool is present, "
       "absent tool = nil and no run, failing run = error, no nil dereference, progress and an 8-steps-per-request bound. The program is re-translated from generator/formatters.go and cmd/gomacro.go "
-      "on every run and must be accepted by the Coq shape checker (compile/well_locked, vm_compute); the real FormatFile is driven under -race with recording stand-in tools and its probe/run/error counts must equal the model's.",
+      "on every run and must be accepted by the Coq shape checker (compile/well_locked, vm_compute); the real FormatFile is driven under -race with recording stand-in tools and its probe/run/error counts must equal the model's; "
+      "the command itself (cmd/gomacro.go:saveOutputs, one goroutine per output on the shared cache) is built with -race and run with stand-in tools: a failing run must reach the user, the race detector must stay silent.",
       "Trusted: the go/ast translator; sync.Mutex semantics; the Go memory model, scheduler and os/exec are not modelled - the race detector run is the link (partial in that respect). Thread-local statements (switch, defer registration, log) are folded into the adjacent shared step.",
       "Coq proof (Owicki-Gries style invariants over an interleaving semantics) + translator/reflection + -race correspondence", "DESIGN.md §5 C20")
 
